@@ -247,13 +247,14 @@ def run(w: World, rep: Report):
         if ok:
             bn, bc = builds[0]
             # tape argument: Tape(<flag>.to_bytes(1, 'big'))
-            ta = bc.args[0]
+            ta, tan = kindsh.origin(bc.args[0], bn)
             fl = None
-            if isinstance(ta, ast.Call) and dotted(ta.func) == 'Tape' and len(ta.args) == 1 and \
-                    isinstance(ta.args[0], ast.Call) and isinstance(ta.args[0].func, ast.Attribute) and \
-                    ta.args[0].func.attr == 'to_bytes' and isinstance(ta.args[0].func.value, ast.Name) and \
-                    [getattr(a, 'value', None) for a in ta.args[0].args] == [1, 'big']:
-                fl = ta.args[0].func.value.id
+            if isinstance(ta, ast.Call) and dotted(ta.func) == 'Tape' and len(ta.args) == 1:
+                tb, _ = kindsh.origin(ta.args[0], tan)
+                if isinstance(tb, ast.Call) and isinstance(tb.func, ast.Attribute) and \
+                        tb.func.attr == 'to_bytes' and isinstance(tb.func.value, ast.Name) and \
+                        [getattr(a, 'value', None) for a in tb.args] == [1, 'big']:
+                    fl = tb.func.value.id
             if fl is None:
                 ok, why = False, 'the builder is not given a tape holding exactly the one flag byte'
             else:
